@@ -1074,6 +1074,9 @@ class Function(Ring):
     def __itruediv__(self,rhs):
         return self._inplace(self / rhs)
 
+    def __ipow__(self,rhs):
+        return self._inplace(self ** rhs)
+
 
     def __add__(self,rhs):
         rhs = self.totype(rhs)
